@@ -60,7 +60,7 @@ PROPS['C18']['trusted'] = PROPS['C18']['trusted'] + [TRUSTED_ASYNC, 'the passwor
 TRUSTED_PARSE = "assumed contracts on std: str::parse::<T>() is an uninterpreted function parse_spec::<T> of the text (what Rust accepts as a number is not re-specified), f64 -> Duration conversion uninterpreted (dur_of_f64), str::split_once / String::as_str / to_owned per vx_base.rs"
 TRUSTED_FRAMEGET = 'Frame::get / Frame::find keep ASSUMED contracts (ordered multimap: first field with the key, taken out by get); checked by the bounded stand-in frameops under C19'
 TRUSTED_ORACLE_FIELDS = "oracle: MPD's reply field names and value domains (status, stats, replay_gain_status, ...) transcribed from the protocol reference into the spec functions of contracts/mpd_client/responses.vspec"
-PROPS['C16'] = {'units': ['C'], 'spec_tags': [], 'trusted': [TRUSTED_PARSE, TRUSTED_FRAMEGET, TRUSTED_ORACLE_FIELDS, TRUSTED_STD], 'bounded': []}
+PROPS['C16'] = {'units': ['C'], 'spec_tags': [], 'trusted': [TRUSTED_PARSE, TRUSTED_FRAMEGET, TRUSTED_ORACLE_FIELDS, TRUSTED_STD], 'bounded': ['typeddiff']}
 PROPS['C12'] = {'units': ['C'], 'spec_tags': [], 'trusted': [TRUSTED_PARSE, TRUSTED_FRAMEGET, TRUSTED_STD,
                 'panic freedom is an implicit obligation of every LIFTED function (panic!/unreachable!/assert!/unwrap/indexing/overflow carry preconditions); functions not lifted are covered only by the bounded fuzz (bounded_standins: typedfuzz), listed in functions_not_under_contract'],
                 'bounded': ['typedfuzz']}
@@ -70,3 +70,7 @@ PROPS['C20'] = {'units': ['C'], 'spec_tags': [], 'bounded': [],
                             'assumed contracts of std: str::eq_ignore_ascii_case == eq_ic, Cow<str>/str ==, cmp (uninterpreted total order str_cmp of the texts) and Hash::hash (new hasher state = uninterpreted function hash_str of old state and text) through N10 wrappers; char_indices yields the chars in order with byte offsets equal to the index over an ASCII prefix; Box<str>::from(&str), to_string (vx_base.rs)',
                             'N11: match_ignore_case! expanded by tools/macroexp.py from the macro_rules! definition in the same file',
                             'Eq/Ord/Hash LAWS (reflexivity, consistency of hash with ==) follow from comparing one derived value (the name) only if std str ==/cmp/hash obey them: assumed', TRUSTED_STD]}
+
+PROPS['C14'] = {'units': ['C'], 'spec_tags': [], 'bounded': ['typeddiff'],
+                'trusted': [TRUSTED_PARSE, TRUSTED_FRAMEGET, TRUSTED_STD,
+                            "the song decoder's tag map (HashMap<Tag, Vec<String>> with the repository's own Hash/Eq on Tag) is outside vstd's HashMap model: the per-song attribute/tag content is decided only by the bounded differential stand-in (typeddiff)"]}
